@@ -432,6 +432,22 @@ gproof! { fn c03_arc_try_unique__dyn() {
     assert!(vrt::drops() == 0 && vrt::gd(0));
 } }
 
+// @h props=C09,C03 fuc=UniqueArc::try_from,Arc::try_unique,Arc::get_mut note="payload of zero size at run time (empty slice) is no excuse: a shared handle is refused by every gate"
+gproof! { fn c09_gates_refuse_shared_empty_slice() {
+    use core::convert::TryFrom;
+    let n = any_count();
+    kani::assume(n > 1);
+    let buf: [u32; 2] = kani::any();
+    let mut a: Arc<[u32]> = Arc::from(&buf[..0]);
+    set_cnt(&a, n);
+    let b0 = base(&a);
+    assert!(Arc::get_mut(&mut a).is_none() && !a.is_unique());
+    match UniqueArc::try_from(a) {
+        Ok(u) => { assert!(false, "sole ownership granted although other owners exist"); core::mem::forget(u); }
+        Err(a2) => { assert!(base(&a2) == b0 && cnt(&a2) == n && a2.len() == 0); core::mem::forget(a2); }
+    }
+} }
+
 // @h props=C03,C09 fuc=UniqueArc::try_from,Arc::try_unique
 gproof! { fn c03_unique_try_from_arc() {
     use core::convert::TryFrom;
@@ -583,7 +599,7 @@ gproof! { fn c09_arc_unwrap_or_clone__nodrop_clone_counted() {
     assert!(r.0 == v && vrt::clones() == if n == 1 { 0 } else { 1 });
 } }
 
-// @h props=C08,C03 fuc=Arc::make_unique,UniqueArc::from_arc_ref
+// @h props=C08,C03,C04 fuc=Arc::make_unique,UniqueArc::from_arc_ref
 gproof! { fn c08_arc_make_unique__tr8() {
     let n = any_count();
     let mut a = mk(Tr8::new(), n);
@@ -782,9 +798,12 @@ macro_rules! h_arc_cmp_delegates {
             let a = mk(Ip(kani::any()), n);
             let b = mk(Ip(kani::any()), m);
             vrt::ip_setup(data(&a), data(&b));
+            vrt::ip_watch(cw(&a));
             $( kani::assume($assume); )?
             let f: fn(&Arc<Ip>, &Arc<Ip>) -> $ret = $call;
             let r: $ret = f(&a, &b);
+            // while the values were being compared the count was what it was before (no transient owner)
+            assert!(vrt::ip_seen_only(n));
             // the answer is the one comparing the VALUES gives; the values (and only they) were consulted
             let want: $ret = $expect;
             assert!(r == want);
@@ -834,7 +853,9 @@ gproof! { fn c14_arc_hash_delegates() {
     let v = a.0;
     let mut h = vrt::RecHasher::new();
     let hp = &h as *const vrt::RecHasher as usize;
+    vrt::ip_watch(cw(&a));
     a.hash(&mut h);
+    assert!(vrt::ip_seen_only(n));
     assert!(vrt::ip_calls(OP_HASH) >= 1 && vrt::ip_args(data(&a), hp));
     // the hasher saw exactly what hashing the value itself feeds it
     let mut h2 = vrt::RecHasher::new();
@@ -849,7 +870,9 @@ gproof! { fn c14_arc_debug_display_delegate() {
     let n = any_count();
     let a = mk(Ip(kani::any()), n);
     unsafe { vrt::IP_FMT_OK = kani::any(); }
+    vrt::ip_watch(cw(&a));
     let ok = vrt::debug_ok(&a);
+    assert!(vrt::ip_seen_only(n));
     assert!(vrt::ip_only(OP_DEBUG) && vrt::ip_args(data(&a), unsafe { vrt::FMT_ADDR }) && ok == unsafe { vrt::IP_FMT_OK });
     let ok2 = vrt::display_ok(&a);
     assert!(vrt::ip_calls(OP_DISPLAY) == 1 && vrt::ip_total() == 2 && vrt::ip_args(data(&a), unsafe { vrt::FMT_ADDR }));
